@@ -184,22 +184,35 @@ def avgOf (xs : List Value) : Option Value :=
     | _, _, some ns => if partialSumsOk inIv 0 ns then some (.interval (Int.tdiv (intSum ns) ns.length)) else none
     | _, _, _ => none
 
-/-- **POPULATION variance** (divisor `n`, not `n − 1`) by the one-pass formula "mean of the squares minus the square of the
-mean": `(Σx² − (Σx)²/n) / n`, evaluated in REAL arithmetic in exactly this order, from the REAL forms `s` of Σx and `q` of
-Σx². The property sentence and the README (`stddev(x)`, `variance(x)`) say neither "population" nor "sample" and fix no
-evaluation order: population and this order are THE CODE'S CHOICE, recorded here as the specification's own definition
-(the model's `stddevCalc` is equal to it by definition: `Lemmas/AggSums.lean` `stddevCalc_eq_spread`; the harness reference
-computes the population variance over exact rationals). The INDEPENDENT definition is `Spec/Variance.lean` (`popVariance`:
-the textbook `(1/n)·Σ(x − μ)²` over exact rationals); `Props/C04Variance.lean` relates the two: equal over ℚ, equal in REAL
-arithmetic where no step rounds (`variance_exact_where_no_step_rounds`), each step correctly rounded otherwise — and NOT a
-variance in general: the subtraction cancels, the result can be NEGATIVE (STDDEV then NaN) or positive for equal values
-(`d72_variance_negative_real`, `d72_variance_negative_int`, `d72_variance_of_equal_ints_positive`: candidate finding D72). -/
+/-- **POPULATION variance** (divisor `n`, not `n − 1`) — the property sentence and the README (`stddev(x)`, `variance(x)`) say
+neither "population" nor "sample": population is THE CODE'S CHOICE, recorded here as the specification's own definition.
+The INDEPENDENT definition is `Spec/Variance.lean` (`popVariance`: the textbook `(1/n)·Σ(x − μ)²` over exact rationals);
+`Props/C04Variance.lean` relates the two.
+
+For INT arguments (finding D72, repaired): with the exact integers `S = Σx`, `Q = Σx²` the exact variance is the rational
+`(n·Q − S²) / n²`; shown is the REAL quotient of the REAL nearest to the numerator by the REAL nearest to the denominator
+— two correctly rounded conversions and one correctly rounded division, no subtraction of rounded terms: never negative,
+`0.0` for equal values (`Props/C04Variance.lean` `int_variance_is_rounded_exact_quotient`). -/
+def intVariance (n S Q : Int) : Nat := F64.div (F64.ofInt (n * Q - S * S)) (F64.ofInt (n * n))
+
+/-- the one-pass formula "mean of the squares minus the square of the mean": `(Σx² − (Σx)²/n) / n`, evaluated in REAL
+arithmetic in exactly this order, from the REAL running sums `s` of Σx and `q` of Σx² (for REAL arguments the sums are REAL
+to begin with, and the evaluation order is the code's choice) -/
 def populationVariance (n : Int) (s q : Nat) : Nat :=
   F64.div (F64.sub q (F64.div (F64.mul s s) (F64.ofInt n))) (F64.ofInt n)
 
+/-- a variance is not negative: where the subtraction of the one-pass formula cancels down to a rounding error below zero,
+`0.0` is shown (finding D72, repaired). NaN stays NaN, `-0.0` stays `-0.0` (IEEE `<`). -/
+def clampNegative (v : Nat) : Nat := if F64.cmp v F64.zero == .lt then F64.zero else v
+
+/-- VARIANCE for REAL arguments -/
+def realVariance (n : Int) (s q : Nat) : Nat := clampNegative (populationVariance n s q)
+
 /-- VARIANCE, or STDDEV = its square root -/
-def spread (n : Int) (isVariance : Bool) (s q : Nat) : Nat :=
-  if isVariance then populationVariance n s q else F64.sqrt (populationVariance n s q)
+def finishSpread (isVariance : Bool) (v : Nat) : Nat := if isVariance then v else F64.sqrt v
+
+def spreadInt (n : Int) (isVariance : Bool) (S Q : Int) : Nat := finishSpread isVariance (intVariance n S Q)
+def spread (n : Int) (isVariance : Bool) (s q : Nat) : Nat := finishSpread isVariance (realVariance n s q)
 
 /-- STDDEV / VARIANCE (population) from Σx, Σx² and n -/
 def stddevOf (isVariance : Bool) (xs : List Value) : Option Value :=
@@ -210,7 +223,7 @@ def stddevOf (isVariance : Bool) (xs : List Value) : Option Value :=
     | some is, _ =>
       let sq := is.map (fun x => x * x)
       if sq.all inI64 && partialSumsOk inI64 0 is && partialSumsOk inI64 0 sq then
-        some (.real (spread is.length isVariance (F64.ofInt (intSum is)) (F64.ofInt (intSum sq))))
+        some (.real (spreadInt is.length isVariance (intSum is) (intSum sq)))
       else none
     | _, some rs =>
       let sq := rs.map (fun x => F64.mul x x)
